@@ -109,8 +109,8 @@ ensures
 ''',
     props=['C09'],
     edits=[
-        Replace('E6', 'self.merge_line_offsets(vec![i]);', '''{
-    let __v0 = vec![i];
+        Replace('E6', 'self.merge_line_offsets(vec![$e]);', '''{
+    let __v0 = vec![$e];
     let ghost vv = __v0@;
     proof {
         assert(vv[0] == i);
